@@ -89,12 +89,22 @@ def run_task(task):
     vs, cs = hist.declare(prefix + ("sets", "seeds"), net.n)
     k = len(prefix)
     cs.append(z3.Int(f"h{k}_node") == z3.Int(f"h{k + 1}_node"))
+    if task["params"].get("free_inputs"):
+        fv, fc = hist.declare_free(net)
+        vs, cs = vs + fv, cs + fc
     H = hist.SymH(net.n)
     selftest = task["params"].get("selftest")
 
     def harness(ctx, rules):
         oracles.AEON_TEXT.clear()
+        hist.set_presentation(H, net.names, task["params"])
         out = execute(rules, prefix, H, net.names, True)
+        # the content of every returned set is read by the caller (and by the assertion below): an observation.  Without
+        # it the representative's content would be used as a constant for class members whose closure differs.
+        for rec in ctx.symsets:
+            for ss in (rec["sets"] or []):
+                for y, f in ss.d.items():
+                    ctx.obs(f)
         parts = assertion(net, out)
         # fine mode: every closure computed by the real symbolic_attractor_test in this run has a denotation over the
         # symbolic truth table; z3 decides closure == forward-reachable set of its seed for the whole class
@@ -118,6 +128,7 @@ def run_task(task):
 def replay(rec):
     B = ConcreteNet.from_bnet(rec["rules"])
     H = hist.ConcH(rec.get("hist", {}))
+    hist.set_presentation(H, B.names, rec["params"])
     out = execute(rec["rules"], tuple(rec["params"]["prefix"]), H, B.names, False)
     parts = assertion(B, out)
     if rec["params"].get("selftest"):
@@ -130,9 +141,9 @@ def tasks(tier, seed, selftest=False):
     T = []
     q = tier == "quick"
 
-    def add(fam, prefix, box, cube_k=0, nbits=0, fine=True, size_mode="real"):
-        base = {"prop": PROP, "family": fam, "label": f"{fam}/{'+'.join(prefix) or 'fresh'}/{'fine' if fine else 'coarse'}" + ("" if size_mode == "real" else "/" + size_mode), "timebox": box, "seed": seed,
-                "params": {"prefix": list(prefix), "selftest": selftest, "fine": fine, "size_mode": size_mode}}
+    def add(fam, prefix, box, cube_k=0, nbits=0, fine=True, size_mode="real", free=False):
+        base = {"prop": PROP, "family": fam, "label": f"{fam}/{'+'.join(prefix) or 'fresh'}/{'fine' if fine else 'coarse'}" + ("" if size_mode == "real" else "/" + size_mode) + ("/free-inputs" if free else ""), "timebox": box, "seed": seed,
+                "params": {"prefix": list(prefix), "selftest": selftest, "fine": fine, "size_mode": size_mode, "free_inputs": free}}
         if cube_k:
             for cube in common.cubes(nbits, cube_k):
                 T.append(dict(base, cube=cube))
@@ -144,6 +155,11 @@ def tasks(tier, seed, selftest=False):
     for p in PREFIXES:
         add("U2", p, 25 if q else 900)
         add("D3", p, 25 if q else 1200)
+    # inputs presented as FREE INPUTS (no update function): the unexpanded root then still contains the inputs
+    for p in ((), ("succ",), ("seeds", "reclaim")):
+        add("D3", p, 15 if q else 900, free=True)
+        add("D3", p, 15 if q else 900, fine=False, free=True)
+        add("S1C2", p, 15 if q else 900, fine=False, free=True)
     for p in ((), ("succ",), ("seeds",)):
         add("N3", p, 25 if q else 900)      # every variable in the NFVS: several candidates survive in minimal nodes
     for p in ((), ("succ",), ("cands",)):
